@@ -1,12 +1,12 @@
 CONSTANTS
-  MaxOps = 4
-  MaxModels = 4
+  MaxOps = 6
+  MaxModels = 3
   Dump = FALSE
-  BaseNames = {"A", "B", "A_BAK1"}
+  BaseNames = {"A", "A_BAK1"}
   BadNames = {"1x"}
-  NFiles = 2
-  EditKinds = {"defs", "value"}
-  Linking = TRUE
+  NFiles = 1
+  EditKinds = {}
+  Linking = FALSE
 INIT Init
 NEXT Next
 VIEW View
